@@ -146,7 +146,7 @@ PROPS = {
         assumptions=["SRID within [0, 2^32)", "int is 64 bits (count*stride cannot overflow)"],
     ),
     "C04": dict(
-        modules=["GeomVerif.Properties.C04"],
+        modules=["GeomVerif.Properties.C04", "GeomVerif.Properties.C04WF"],
         n_quick=20000, n_thorough=300000, thorough_seeds=4, min_theorems=6,
         rule="byte strings: valid WKB / WKB-NaN / EWKB encodings of random geometries (both byte orders) mutated by truncation, bit flips, splices, "
              "forged 32-bit fields at count/type offsets (0..2^32-1), forged type words, trailing garbage, and short random bytes; per-level limits "
